@@ -429,8 +429,12 @@ def shrink(mod, case, key, budget):
 
     def fails(c):
         nonlocal tries
-        if valid is not None and not valid(c):
-            return False
+        if valid is not None:
+            try:
+                if not valid(c):
+                    return False
+            except Exception:       # a shrink candidate the module's validity test cannot even read is not a candidate
+                return False
         tries += 1
         try:
             out = run_check(mod, c)
